@@ -47,9 +47,9 @@ def cfgUpdate (s : Store) (n : Nat) (c : Cfg) : Store × List Event :=
     match sv.eps with
     | none => (s', [])
     | some eps =>
-      let addEv : List Event := match sv.cfg with
-        | none => [.add n c eps]
-        | some old => if old.valid then [] else [.add n c eps]
+      -- the service is announced again after every configuration update (a processor may be missing for reasons the
+      -- store cannot see: F-08e); the controller ignores the announcement of a service that has a processor
+      let addEv : List Event := [.add n c eps]
       let cfgEv : List Event := match sv.cfg with
         | none => []
         | some _ => [.config n c]
